@@ -37,6 +37,11 @@ pub trait El: Clone + PartialEq + Debug + 'static {
     fn live_ok(&self) -> bool {
         true
     }
+    /// is this bit pattern one the harness could have produced? (garbage read from memory the
+    /// vector does not own is very unlikely to pass for the structured types)
+    fn well_formed(&self) -> bool {
+        self.live_ok()
+    }
     fn id(&self) -> Option<u32> {
         None
     }
@@ -78,6 +83,9 @@ impl El for u64 {
     fn key(&self) -> u32 {
         *self as u32
     }
+    fn well_formed(&self) -> bool {
+        (*self >> 40) == (*self & 0xFF_FFFF) && (*self as u32) < (1 << 24)
+    }
     fn ext_copy<'b>(bv: &mut BVec<'b, u64>, items: &[u64]) {
         bv.extend_from_slice_copy(items)
     }
@@ -102,6 +110,9 @@ impl El for [u8; 24] {
         } else {
             0xDEAD_0000 | (self[0] as u32)
         }
+    }
+    fn well_formed(&self) -> bool {
+        self.key() & 0xFFFF_0000 != 0xDEAD_0000
     }
     fn ext_copy<'b>(bv: &mut BVec<'b, [u8; 24]>, items: &[[u8; 24]]) {
         bv.extend_from_slice_copy(items)
@@ -182,6 +193,8 @@ pub enum VOp {
     SplitOff(usize, bool),
     Drain(B, B, usize, usize, bool),
     Splice(B, B, Vec<u32>, bool, usize),
+    /// splice whose replacement iterator honestly announces a count that can never be reserved
+    SpliceHuge(B, B, Vec<u32>),
     Retain(u32),
     DrainFilter(u32, Option<usize>, bool),
     DedupByAsym(u32),
@@ -229,6 +242,7 @@ impl VOp {
             VOp::SplitOff(..) => "split_off",
             VOp::Drain(..) => "drain",
             VOp::Splice(..) => "splice",
+            VOp::SpliceHuge(..) => "splice-unreservable-hint",
             VOp::Retain(..) => "retain",
             VOp::DrainFilter(_, _, false) => "drain_filter",
             VOp::DrainFilter(_, _, true) => "drain_filter-forget",
@@ -290,6 +304,37 @@ impl<T: El> Iterator for KeysIter<T> {
 }
 fn kiter<T: El>(keys: &[u32], exact: bool) -> KeysIter<T> {
     KeysIter { keys: keys.to_vec().into_iter(), exact, _p: std::marker::PhantomData }
+}
+
+
+/// yields `keys`, then would go on for isize::MAX more items: no element size can be reserved, both sides must refuse by panicking without allocating (size_hint says so, honestly)
+struct HugeIter<T: El> {
+    keys: std::vec::IntoIter<u32>,
+    rest: usize,
+    _p: std::marker::PhantomData<T>,
+}
+impl<T: El> Iterator for HugeIter<T> {
+    type Item = T;
+    fn next(&mut self) -> Option<T> {
+        match self.keys.next() {
+            Some(k) => Some(T::mk(k)),
+            None => {
+                if self.rest > 0 {
+                    self.rest -= 1;
+                    Some(T::mk(1))
+                } else {
+                    None
+                }
+            }
+        }
+    }
+    fn size_hint(&self) -> (usize, Option<usize>) {
+        let n = self.keys.len() + self.rest;
+        (n, Some(n))
+    }
+}
+fn huge_iter<T: El>(keys: &[u32]) -> HugeIter<T> {
+    HugeIter { keys: keys.to_vec().into_iter(), rest: (isize::MAX as usize) + 4096, _p: std::marker::PhantomData }
 }
 
 fn mkv<T: El>(keys: &[u32]) -> Vec<T> {
@@ -393,6 +438,11 @@ pub fn apply_b<'b, T: El>(b: &'b Bump, v: &mut BVec<'b, T>, op: &VOp, slices: &m
             }
             drop(s);
             Res::Keys(out)
+        }
+        VOp::SpliceHuge(lo, hi, ks) => {
+            let s = v.splice((bound(*lo), bound(*hi)), huge_iter::<T>(ks));
+            drop(s);
+            Res::Unit
         }
         VOp::Retain(m) => {
             let m = *m;
@@ -673,6 +723,11 @@ pub fn apply_s<T: El>(v: &mut Vec<T>, op: &VOp) -> Res {
             drop(s);
             Res::Keys(out)
         }
+        VOp::SpliceHuge(lo, hi, ks) => {
+            let s = v.splice((bound(*lo), bound(*hi)), huge_iter::<T>(ks));
+            drop(s);
+            Res::Unit
+        }
         VOp::Retain(m) => {
             let m = *m;
             let mut seen = Vec::new();
@@ -899,7 +954,13 @@ pub fn gen_op<T: El>(rng: &mut Rng, len: usize) -> VOp {
         28 => VOp::Append(gen_keys(rng, small)),
         29..=30 => VOp::SplitOff(gen_idx(rng, len), rng.chance(1, 2)),
         31..=34 => VOp::Drain(gen_bound(rng, len), gen_bound(rng, len), rng.below(4), rng.below(3), rng.chance(1, 8)),
-        35..=37 => VOp::Splice(gen_bound(rng, len), gen_bound(rng, len), gen_keys(rng, 7), rng.chance(1, 2), rng.below(4)),
+        35..=37 => {
+            if std::mem::size_of::<T>() > 0 && rng.chance(1, 8) {
+                VOp::SpliceHuge(gen_bound(rng, len), gen_bound(rng, len), gen_keys(rng, 5))
+            } else {
+                VOp::Splice(gen_bound(rng, len), gen_bound(rng, len), gen_keys(rng, 7), rng.chance(1, 2), rng.below(4))
+            }
+        }
         38..=39 => VOp::Retain(rng.range(1, 5) as u32),
         40..=41 => {
             let take = if rng.chance(1, 2) { None } else { Some(rng.below(4)) };
@@ -1033,6 +1094,23 @@ impl<'b, T: El> Pair<'b, T> {
             (Err(_), Ok(b)) => {
                 rep.violate("C13", format!("C13/vec<{}>/{}/bumpalo-panics-std-returns", T::NAME, name), format!("std returned {:?}; bumpalo panicked: {} (op {:?})", b, msg_b, op));
             }
+        }
+        if let (VOp::SpliceHuge(..), true, true) = (op, rb.is_err(), rs.is_err()) {
+            // Both refused by panicking, as they must.  What is left in the vector after the unwind
+            // is an implementation detail of each library (how much of the replacement was already
+            // written), so contents are not compared with std here; but every element still in the
+            // vector must be a value the program put there, not bytes from memory the vector does
+            // not own (C19: a refusal never leaves the vector claiming memory it has not reserved).
+            let bad = self.bv.iter().position(|x| !x.well_formed());
+            if let Some(i) = bad {
+                rep.violate("C13", format!("C13/vec<{}>/{}/garbage-element-after-refused-reservation", T::NAME, name), format!("element {} of {} is not a value the program stored ({:?})", i, self.bv.len(), op));
+                rep.violate("C19", format!("C19/vec<{}>/{}/vector-claims-memory-it-did-not-reserve", T::NAME, name), format!("element {} of {} after the refused reservation ({:?})", i, self.bv.len(), op));
+            }
+            rep.bump("c19.refused_splice_reservations_checked");
+            self.bv = BVec::new_in(self.b);
+            let _p = halloc::pause();
+            self.sv = Vec::new();
+            return;
         }
         self.check(rep, name);
         if keys_of(&self.bv) != keys_of(&self.sv) {
